@@ -14,18 +14,29 @@ type arg struct {
 	Flags  int    `json:"flags"`
 	DefFmt int    `json:"default_format"` // roman.DefaultFormat for this phase
 	Via    string `json:"via"`            // "formatter" or "methods"
+	Max    *int   `json:"max_input_length,omitempty"` // nil = default 128
 }
 
+var maxLen = 128 // MaxInputLength of the current phase (read by back)
+
 func reset() {
+	maxLen = 128
 	roman.DefaultFormat = 0
 	roman.MaxInputLength = 128
 	roman.Formatter = roman.DefaultFormatter
 	roman.Parser = roman.DefaultParser[[]byte]
 }
-func setup(a arg) { roman.DefaultFormat = roman.Format(a.DefFmt) }
+func setup(a arg) {
+	roman.DefaultFormat = roman.Format(a.DefFmt)
+	maxLen = 128
+	if a.Max != nil {
+		maxLen = *a.Max
+	}
+	roman.MaxInputLength = maxLen
+}
 
 func back(text string, n uint64, what string) (string, string) {
-	if len(text) > 128 {
+	if maxLen != 0 && len(text) > maxLen {
 		return "", ""
 	}
 	if g, err := roman.DefaultParser(text, 0); err != nil || uint64(g) != n {
@@ -60,6 +71,22 @@ func probe(a arg) (string, string) {
 				out, err := roman.DefaultFormatter(make([]byte, 0, spare), n, roman.Format(a.Flags))
 				if err != nil || string(out) != want {
 					return "formatter_text_with_spare_capacity", fmt.Sprintf("DefaultFormatter(make([]byte,0,%d), %d, flags=%#x) = %q, %v; want %q", spare, a.N, a.Flags, out, err, want)
+				}
+			}
+			// a buffer that already holds a prefix, with little, exact or ample room behind it
+			for _, pl := range []int{1, 10, 20} {
+				for _, room := range []int{0, 1, 4, len(want) - 1, len(want), len(want) + 1, 15, 16, 40} {
+					if room < 0 {
+						continue
+					}
+					buf := make([]byte, pl, pl+room)
+					for i := range buf {
+						buf[i] = '.'
+					}
+					out, err := roman.DefaultFormatter(buf, n, roman.Format(a.Flags))
+					if err != nil || len(out) < pl || string(out[pl:]) != want {
+						return "formatter_text_behind_a_prefix", fmt.Sprintf("DefaultFormatter(make([]byte,%d,%d), %d, flags=%#x) = %q, %v; want the prefix followed by %q", pl, pl+room, a.N, a.Flags, out, err, want)
+					}
 				}
 			}
 		}
@@ -126,6 +153,36 @@ func probeFlight(p flightArg) (string, string) {
 	return "", ""
 }
 
+// history through one reused buffer: format a, parse it, format b into the same buffer, parse it
+type reuseArg struct {
+	A uint64 `json:"a"`
+	B uint64 `json:"b"`
+	F int    `json:"flags"`
+}
+
+func probeReuse(p reuseArg) (string, string) {
+	buf := make([]byte, 0, 64)
+	buf, _ = roman.DefaultFormatter(buf[:0], roman.Number(p.A), roman.Format(p.F))
+	_, _ = roman.DefaultParser(buf, 0)
+	buf, _ = roman.DefaultFormatter(buf[:0], roman.Number(p.B), roman.Format(p.F))
+	if want := oracle.RomanText(p.B, p.F); string(buf) != want {
+		return "after_previous_step:formatter_text", fmt.Sprintf("after formatting and parsing %d in the same buffer, %d formats as %q want %q", p.A, p.B, buf, want)
+	}
+	if g, err := roman.DefaultParser(buf, 0); err != nil || uint64(g) != p.B {
+		return "after_previous_step:parse_bytes", fmt.Sprintf("after formatting and parsing %d in the same buffer, the numeral of %d (%q) parses to %d, %v", p.A, p.B, buf, uint64(g), err)
+	}
+	var u roman.Number = 77777
+	if err := u.UnmarshalText(buf); err != nil || uint64(u) != p.B {
+		return "after_previous_step:unmarshaltext", fmt.Sprintf("after formatting and parsing %d in the same buffer, UnmarshalText(%q) = %d, %v; want %d", p.A, buf, uint64(u), err, p.B)
+	}
+	if len(buf) > 0 {
+		if err := roman.Valid(buf, 0); err != nil {
+			return "after_previous_step:valid", fmt.Sprintf("Valid(%q) = %v", buf, err)
+		}
+	}
+	return "", ""
+}
+
 func main() {
 	mc.Main("C02", "every n in [0,130000] x all 128 flag subsets through DefaultFormatter and back through every parser entry point; every n x every DefaultFormat through MarshalText/String/%s and the four verbs; "+
 		"non-trivial = numeral contains a 4 or 9 digit or a five-symbol together with a flag that affects it", func(r *mc.Run) {
@@ -169,6 +226,38 @@ func main() {
 			})
 		})
 		r.Sample("formatter", arg{N: 3999, Flags: 0x7f, Via: "formatter"})
+		for _, ml := range []int{0, 400, 200} {
+			ml := ml
+			r.Phase(fmt.Sprintf("MaxInputLength=%d: n in [120000,420000] step 7 and every multiple of 1000 x flag sets {0,63,64,127}: format and parse back", ml), "complete for the listed numbers", func() {
+				setup(arg{Max: &ml})
+				r.Parallel(300001, 256, func(w *mc.W, i int64) {
+					n := uint64(120000 + i)
+					if i%7 != 0 && n%1000 != 0 && n%1000 != 999 {
+						return
+					}
+					for _, f := range []int{0, 63, 64, 127} {
+						w.Point()
+						w.NonTrivial()
+						p.Do(w, arg{N: n, Flags: f, Via: "formatter", Max: &ml})
+					}
+				})
+				reset()
+			})
+		}
+		pr := mc.NewProbe(r, "reused_buffer_history", nil, probeReuse)
+		r.Phase("serial: all histories of two format-then-parse steps through one reused buffer over 20 numbers x 3 flag sets", "complete for depth 2 over the listed numbers", func() {
+			ns := []uint64{4, 6, 9, 11, 40, 60, 90, 110, 400, 600, 900, 1100, 1994, 1996, 3999, 0, 1, 5, 14, 16}
+			r.Serial(func(w *mc.W) {
+				for _, a := range ns {
+					for _, b := range ns {
+						for _, f := range []int{0, 64, 127} {
+							w.Point()
+							pr.Do(w, reuseArg{a, b, f})
+						}
+					}
+				}
+			})
+		})
 		dfs := []int{0, 64, 63, 127, 1, 2, 4, 8, 16, 32, 9, 18, 36, 73}
 		if !r.Quick() {
 			dfs = dfs[:0]
